@@ -11,4 +11,5 @@ INVARIANT CAtBoundary
 INVARIANT CClosedCommitted
 INVARIANT CVisibleSchemaOK
 INVARIANT CReadBack
+PROPERTY CCrashRollsBack
 CHECK_DEADLOCK FALSE
